@@ -98,7 +98,7 @@ func ruleBatchCodec(p *Prog, r *Report, rule string) {
 					return true
 				}
 				u, ok := stripConv(v).(*ssa.UnOp)
-				return ok && resolveCell(u.X) != nil && resolveCell(u.X).Comment == "seq"
+				return ok && resolveCell(u.X) != nil && cellRefName(resolveCell(u.X)) == "seq"
 			}
 			return cmpAtom("", token.LSS, isSeq, mParam("expectSeq")).Match(cond)
 		}}
